@@ -16,6 +16,12 @@ streams
          before / after / inside their labelled objects.  The event history of the document goes to the
          driver; observation = for every \\ref node which object `idref['label']` *is* (identity, object
          index in document order), the printed number, every object's id.
+  rerun9: the edit / re-run cycle of the command line: `Compile.run` renders another job and the previous
+         version of the document in a scratch directory (both write their `.paux`), the document is edited
+         (a block inserted in front, a labelled section removed) and parsed again with `Compile.parse`.
+         The driver gets the `.paux` files found (`F<job> S<label>@<node>:<number>`) and the history of the
+         edited document; model = `compileParse` (restore every file but the job's own, then run), spec =
+         `resolveSpecX` (own labels as always, other jobs' labels mean their objects, the stale file means nothing).
   extra: bibliography keys (\\bibitem / \\cite, both orders, missing keys) and, in the thorough tier,
          rendered HTML of a sample of the documents (the text printed for each \\ref).
 """
@@ -29,6 +35,8 @@ LEVEL_TEXT = ('Lean 4 theorems over a line-by-line model of Context.label / Cont
               'that each reference holds exactly the object current at its label event if the label is written anywhere (before or after the reference) '
               'and a placeholder that is no object otherwise; permutation_invariant, dangling_resolve_to_no_object, label_after_section_attaches_to_it, '
               'label_becomes_identifier, distinct_labels_distinct_ids and ref_number_is_target_number are proved at the same generality. '
+              'resolve_with_restored / compile_resolves_current_document extend this to Context.restore and the loop of Compile.parse: labels pre-loaded from other jobs\' .paux files '
+              'do not disturb the document\'s own references and the job\'s own stale .paux is ignored (own_paux_is_ignored; stale_own_labels_counterexample shows why it must be). '
               'The model is tied to the code by differential execution of operation histories on a real Context (exhaustive for short histories) and of '
               'generated documents with their reference-moved variants. Bibliography keys and the rendered text of a reference are carried by the document streams only.')
 LEVEL_NOTE = ('Trusted: Lean kernel (axioms propext, Classical.choice, Quot.sound only), the correspondence harness and its generators, CPython. '
@@ -36,7 +44,8 @@ LEVEL_NOTE = ('Trusted: Lean kernel (axioms propext, Classical.choice, Quot.soun
               'bibitem/cite userdata table, renderer templates.')
 TECHNIQUE = 'Lean 4 proof (invariant over operation histories, induction on the history) + differential correspondence (component and document level)'
 TRUSTED = ['the set of macros that call refstepcounter and the order of their events in a document is tied by the doc9 stream only',
-           'bibliography keys (bibitem.invoke / cite.bibitems) and rendered reference text are checked at document level only']
+           'bibliography keys (bibitem.invoke / cite.bibitems) and rendered reference text are checked at document level only',
+           'the glob / basename test of Compile.parse and the pickle format of .paux files are tied by the rerun9 stream only (format: C20)']
 ASSUMPTIONS = ['labels pairwise distinct (NF-doc); every \\ref node parses its argument once',
                'every generated document is parsed with the per-class caches of plasTeX (Macro.locals) cleared, i.e. as in a fresh interpreter; carry-over between documents is C17',
                'labels are written inside a numbered object before any nested numbered object, or directly after a sectioning command',
@@ -78,6 +87,8 @@ def lnum(s):
 def parse_ops(line):
     ops = []
     for w in line.split():
+        if w[0] in 'JFS':
+            continue                      # rerun9: the `.paux` files found in the directory
         if w[0] == 'N':
             ops.append(('N', int(w[1:])))
         elif w[0] == 'V':
@@ -200,6 +211,9 @@ def generate(ctx):
     for i in range(ndoc):
         for c in doc_cases(rng.randrange(1 << 30), malformed=(rng.random() < 0.15)):
             yield c
+    for i in range(8 if quick else 120):
+        for c in rerun_cases(rng.randrange(1 << 30)):
+            yield c
 
 
 def corpus():
@@ -215,7 +229,7 @@ def corpus():
         Case('lbl', 'R1.0:5 R2.0:5 N1 L5 R3.0:5', {'seed': 6}, 'corpus'),             # a name of several words (style chosen by the seed)
         Case('lbl', 'R1.0:5 R2.0:5 N1 L5 R3.0:5', {'seed': 7}, 'corpus'),
         Case('lbl', 'R1.0:5 R2.0:5 N1 L5 R3.0:5', {'seed': 9}, 'corpus'),
-    ] + doc_cases(12345, False) + doc_cases(777, True) + doc_cases(23, False) + doc_cases(42, False)
+    ] + doc_cases(12345, False) + doc_cases(777, True) + doc_cases(23, False) + doc_cases(42, False) + rerun_cases(4242)
     # seeds 23, 42: eqnarray* before an eqnarray whose later rows carry labels; labels of several words
 
 
@@ -376,11 +390,15 @@ def view_of_state(full, line):
 
 # ---------------------------------------------------------------- generation + implementation: doc9
 
+REMOVED_LABEL = 58
+FOREIGN = [(80, 901, '1'), (81, 902, '1'), (82, 903, '2')]     # label, model node, number in the other job
+
+
 class DocGen:
     """one document skeleton (objects + labels) from a seed; `render(placement)` gives the LaTeX text,
     the event history, the object kinds in document order and the numbers LaTeX's rules give them."""
 
-    def __init__(self, seed, malformed=False):
+    def __init__(self, seed, malformed=False, old=False):
         rng = random.Random(seed)
         self.malformed = malformed
         self.nextlabel = rng.randint(1, 5)
@@ -401,6 +419,10 @@ class DocGen:
             self.blocks.append(b)
         if not any(b[0] == 'sec' for b in self.blocks):
             self.blocks.insert(0, ('sec', 1, rng.choice([1, 2]), self.newlabel(rng, 1.0), False))
+        if old:
+            # the version of the document before the last edit: its first block was not there yet (so numbers
+            # differ) and it still had a labelled section at the end (label REMOVED_LABEL, gone in the new version)
+            self.blocks = self.blocks[1:] + [('sec', 1, 2, REMOVED_LABEL, False)]
         self.labels = []
         self.render({})     # collects self.labels, self.nsites, self.inside
 
@@ -730,6 +752,43 @@ def parse_tex(tex_src):
     return doc
 
 
+def foreign_tex():
+    return ('\\documentclass{article}\\begin{document}\\section{F}\\label{%s} text\n\\begin{equation}x=y\\label{%s}\\end{equation}\n'
+            '\\section{G}\\label{%s} text\\end{document}\n' % tuple(lname(l) for l, _, _ in FOREIGN))
+
+
+def stale_entries(gen_old):
+    """what the previous run of the job left in its `.paux`: label -> (model node, number token), read off the
+    event history of the old version"""
+    cur, out = None, []
+    for op in gen_old.ev:
+        if op[0] == 'N':
+            cur = op[1]
+        elif op[0] == 'L' and op[1] and cur is not None:
+            out = [e for e in out if e[0] != op[1]] + [(op[1], 800 + cur, 800 + cur)]
+    return out
+
+
+def rerun_cases(seed):
+    """the edit / re-run cycle of the command line: job `doc` was rendered before (its stale doc.paux is in the
+    directory), another job `other` left other.paux; the edited document is parsed with Compile.parse"""
+    gen_old = DocGen(seed, False, old=True)
+    gen = DocGen(seed, False)
+    prefix = ['J1', 'F1'] + ['S%d@%d:%d' % e for e in stale_entries(gen_old)] + ['F2'] + ['S%d@%d:%d' % (l, n, n) for l, n, _ in FOREIGN]
+    out = []
+    for name, p in placements(gen, seed + 1)[:2]:
+        rng = random.Random(seed + 2)
+        extra = [('ref', REMOVED_LABEL), (rng.choice(['ref', 'pageref']), REMOVED_LABEL)] + \
+                [(rng.choice(['ref', 'pageref']), l) for l, _, _ in FOREIGN if rng.random() < 0.7]
+        p = {k: list(v) for k, v in p.items()}
+        for x in extra:
+            p.setdefault(0 if name == 'before' else rng.randrange(gen.nsites), []).append(x)
+        gen.render(p)
+        out.append(Case('rerun9', ' '.join(prefix) + ' ' + line_of(gen.ev),
+                        {'seed': seed, 'malformed': False, 'placement': name, 'place': {str(k): v for k, v in p.items()}}))
+    return out
+
+
 def doc_of_case(case):
     m = case.meta
     gen = DocGen(m['seed'], m['malformed'])
@@ -744,7 +803,61 @@ def run_doc9(case):
     if line_of(gen.ev) != case.line:
         raise RuntimeError('doc9 generator is not deterministic')
     doc = parse_tex(src)
+    return observe_doc(doc, gen, case.line)
+
+
+def run_rerun9(case):
+    """Compile.run on the other job and on the old version of this job, then Compile.parse on the edited file"""
+    import os, tempfile, shutil
+    gen, src = doc_of_case(case)
+    case.meta['tex'] = src
+    if line_of(gen.ev) != ' '.join(w for w in case.line.split() if w[0] not in 'JFS'):
+        raise RuntimeError('rerun9 generator is not deterministic')
+    old = DocGen(case.meta['seed'], False, old=True).render({})
+    case.meta['tex_previous_run'] = old
+    from plasTeX.Config import defaultConfig
+    from plasTeX.client import collect_renderer_config
+    import plasTeX.Compile as Compile
+
+    def config():
+        c = defaultConfig()
+        collect_renderer_config(c)
+        c['files']['split-level'] = -100
+        c['images']['imager'] = 'none'
+        c['images']['vector-imager'] = 'none'
+        return c
+    d = tempfile.mkdtemp(prefix='c09rr')
+    cwd = os.getcwd()
+    import io, contextlib
+    try:
+        os.chdir(d)
+        with contextlib.redirect_stdout(io.StringIO()):
+            for job, text in (('other', foreign_tex()), ('doc', old)):
+                with open(job + '.tex', 'w', encoding='utf-8') as f:
+                    f.write(text)
+                reset_class_caches()
+                Compile.run(job + '.tex', config())
+                os.chdir(d)
+            if not (os.path.exists('doc.paux') and os.path.exists('other.paux')):
+                raise RuntimeError('rerun9: the first runs wrote no .paux')
+            with open('doc.tex', 'w', encoding='utf-8') as f:
+                f.write(src)
+            reset_class_caches()
+            tex = Compile.parse('doc.tex', config())
+        return observe_doc(tex.ownerDocument, gen, case.line)
+    finally:
+        os.chdir(cwd)
+        shutil.rmtree(d, ignore_errors=True)
+
+
+def observe_doc(doc, gen, line):
+    import plasTeX
     ctx = doc.context
+    mentioned = set()
+    for op in parse_ops(line):
+        if op[0] == 'L' and op[1]: mentioned.add(lname(op[1]))
+        if op[0] == 'R' and op[3]: mentioned.add(lname(op[3]))
+    foreign = {lname(l): n for l, n, _ in FOREIGN} if line.split()[:1] == ['J1'] else {}
     objs, refs = [], []
     for n in walk(doc, set()):
         if is_object(n):
@@ -767,9 +880,11 @@ def run_doc9(case):
             return '-'
         if id(v) in byid:
             return 'o%d' % byid[id(v)]
-        if type(v) is plasTeX.Macro and v.parentNode is None and id(v) not in innodes:
+        if lab.strip() in foreign and v is ctx.labels.get(lab.strip()) and v.parentNode is None and id(v) not in innodes:
+            return 'o%d' % foreign[lab.strip()]        # the object of the other job, re-created by Context.restore
+        if type(v) is plasTeX.Macro and v.parentNode is None and id(v) not in innodes and getattr(v, 'ref', None) is None:
             return 'none' if getattr(v, '@id', None) == lab.strip() else 'none?id'
-        return '?' + str(v.nodeName)
+        return '?' + str(v.nodeName) + ('(not in the document)' if id(v) not in innodes else '')
     I, W = [], []
     for r in refs:
         lab = r.attributes['label']
@@ -780,7 +895,7 @@ def run_doc9(case):
     D = ['%d=%s' % (i + 1, enc(getattr(o, '@id'))) for i, o in enumerate(objs)
          if isinstance(getattr(o, '@id', None), str) and not getattr(o, '@hasgenid', False)]
     N = ['%d=%s' % (i + 1, numstr(o)) for i, o in enumerate(objs)]
-    L = sorted('%s=%s' % (enc(k), target(v, k)) for k, v in ctx.labels.items())
+    L = sorted('%s=%s' % (enc(k), target(v, k)) for k, v in ctx.labels.items() if not foreign or k in mentioned)
     P = sorted('%s=%d' % (enc(k), len(v)) for k, v in ctx.refs.items())
     C = target(ctx.currentlabel, '')[1:] if ctx.currentlabel is not None else '-'
     return 'I %s | W %s | D %s | L %s | P %s | C %s | N %s' % (' '.join(sorted(I)), ' '.join(sorted(W)), ' '.join(D),
@@ -832,6 +947,8 @@ def impl(case, aux):
     try:
         if case.stream == 'lbl':
             body = run_lbl(case.line, (case.meta or {}).get('seed', 0))
+        elif case.stream == 'rerun9':
+            body = run_rerun9(case)
         else:
             body = run_doc9(case)
     except RuntimeError:
@@ -860,6 +977,8 @@ def judge(o):
     own = {int(w.split('=')[0]): w.split('=', 1)[1] for w in secs.get('N', '').split()}
     gen, _ = doc_of_case(c)
     nums = {i + 1: (gen.nums[i] if gen.nums[i] is not None else own.get(i + 1, '-')) for i in range(len(gen.nums))}
+    if c.stream == 'rerun9':
+        nums.update({n: num for _, n, num in FOREIGN})
     impl_full = ' | '.join('%s %s' % (k, secs.get(k, '')) for k in 'IWDLPC')
     noblank = lambda t: ' '.join(w for w in t.split() if not w.startswith('~>'))
     impl_view = ' | '.join('%s %s' % (k, noblank(secs.get(k, ''))) for k in 'IWD')
@@ -883,6 +1002,8 @@ def judge(o):
 def shrink(ctx, o, evaluate):
     """delete operations while the property still fails (doc9 cases are first re-run as bare histories)"""
     best = o
+    if o.case.stream == 'rerun9':
+        return o
     if o.case.stream == 'doc9':
         r = evaluate([Case('lbl', o.case.line, {'seed': 0}, 'shrink')])[0]
         if r.prop_ok:
@@ -924,6 +1045,8 @@ def search(ctx, evaluate, corr_bad):
     cases += [Case('lbl', line_of(random_wf_history(rng)), {'seed': rng.randrange(1 << 30)}, 'search') for _ in range(30000)]
     for _ in range(150):
         cases += doc_cases(rng.randrange(1 << 30), False)
+    for _ in range(20):
+        cases += rerun_cases(rng.randrange(1 << 30))
     cases = [c for c in cases if c.line]
     bad = [o for o in evaluate(cases) if not o.prop_ok]
     if bad:
